@@ -291,7 +291,9 @@ class TracedRace:
             if src == w.DRIVER and dst == w.DRIVER:
                 return "DRecvSelfFailure", 0
             if src == w.DRIVER and dst == w.RC:
-                return "RcRecv", 0
+                if nm in ("TaskFinished", "BenchmarkComplete", "BenchmarkFailure", "BenchmarkCancelled"):
+                    return "RcRecv", 0
+                return "Skip", 0  # e.g. ChildActorExited after the coordinator has exited: ignored by race control
             if src == w.RC and dst == w.DRIVER:
                 return "DRecvFromRc", 0
             if dst == w.RC and nm == "EngineStopped":
@@ -419,7 +421,9 @@ class TracedRace:
                     if w.sim.actors[wn].alive:
                         w.sim.kill(wn, notify_parent=False)
                 for key in list(w.sim.chan):
-                    if key[0] == w.DRIVER or key[1] == w.DRIVER:
+                    # what was addressed to the coordinator or its workers is lost; what the coordinator had already sent to
+                    # race control is still delivered
+                    if key[1] == w.DRIVER or key[1].startswith("Worker") or key[1].startswith("TrackPreparation"):
                         del w.sim.chan[key]
                 w.pending.clear()
             if ev == "DRecvJoinPointReached" and self._count_cct() > n_cct_before:
